@@ -659,6 +659,140 @@ def sink_drift(work, harness, seed, runs=40, corrupt=None, tagp='sd'):
     return out
 
 
+def repo_src_line(site):
+    """the source line of the checked tree at a lock's creation site (`.../src/<file>:<line>`)"""
+    fn, ln = site.rsplit(':', 1)
+    fn = fn[fn.index('/src/') + 1:] if '/src/' in fn else fn
+    try:
+        return open(os.path.join(os.environ.get('ARX_REPO', '/repo'), fn)).read().splitlines()[int(ln) - 1]
+    except Exception:
+        return ''
+
+
+def subject_drift(work, harness, seed, runs=40, corrupt=None, tagp='sj'):
+    """Lock-level conformance of the real plain Subject with the L1 design model SubjectConc (spec/SubjectConcTrace.tla):
+    drift, never an alarm."""
+    out = {'cases': 0, 'traces': 0, 'lines': 0, 'drift': []}
+    SUB2 = {'op': 'sub', 'u': 2}
+    todo = [case('sj/plain/producer-vs-latesub', S(1), [items(1, 3), [SUB2]]),
+            case('sj/plain/producer-vs-unsub', S(1), [items(1, 3), [], [UNSUB1]]),
+            case('sj/plain/producer-latesub-unsub', S(1), [items(1, 3), [SUB2], [UNSUB1]]),
+            case('sj/plain/producer2-latesub-unsub', S(1), [items(1, 2), [SUB2], [UNSUB1]])]
+    path = work + '/sj.cases.json'
+    with open(path, 'w') as f:
+        json.dump(todo, f)
+    r = subprocess.run([harness, 'conc', '--cases', path, '--mode', 'random', '--max-runs', str(runs), '--seed', str(seed), '--log-locks', '1', '--out', work + '/sj.ndjson'], capture_output=True, text=True)
+    if r.returncode != 0:
+        raise ToolError('harness conc --log-locks failed: ' + r.stderr[-1500:])
+    byname = {c['name']: c for c in todo}
+    per_case = {}
+    cur = None
+    for line in open(work + '/sj.ndjson'):
+        v = json.loads(line)
+        if v['ev'] == 'reset':
+            cur = {'name': v['name'], 'ev': []}
+            per_case.setdefault(v['name'], []).append(cur)
+        elif v['ev'] != 'quiesce':
+            cur['ev'].append(v)
+    gen = work + '/gen'
+    isfw = lambda e: e['ev'] == 'lk' and e['op'] == 'new' and re.search(r'internals/function_wrapper\.rs:\d+$', e.get('site', ''))
+    for name, runs_ in per_case.items():
+        c = byname[name]
+        lines = []
+        bad = None
+        for run in runs_:
+            evs = run['ev']
+            hth = set(e['t'] for e in evs if e['ev'] == 'hthread')
+            spawned = [e['v'] for e in evs if e['ev'] == 'spawn' and e['t'] == 0 and e['v'] in hth]
+            names = ['prod', 'sub', 'unsub']
+            tmap = {t: names[i] for i, t in enumerate(spawned) if i < 3}
+            # the observer table of subject 1: the first lock created at the line of subject.rs that initialises `observers`
+            table = next((e['lock'] for e in evs if e['ev'] == 'lk' and e['op'] == 'new' and 'subjects/subject.rs' in e.get('site', '') and re.search(r'observers\s*:', repo_src_line(e['site']))), None)
+            # next slot of observer u: the first FunctionWrapper lock created by the subscribing thread after its subscribe call began
+            slot = {}
+            subt = {}
+            for e in evs:
+                if e['ev'] == 'subcall' and e.get('u') in (1, 2) and e['u'] not in subt:
+                    subt[e['u']] = e['t']
+                elif isfw(e):
+                    for u, t in subt.items():
+                        if u not in slot and t == e['t']:
+                            slot[u] = e['lock']
+            if table is None or 1 not in slot:
+                bad = 'the observer table of the subject / the next slot of observer 1 could not be identified in the lock log'
+                break
+            rslot = {v: k for k, v in slot.items()}
+            lines.append(json.dumps({'ev': 'reset', 't': '', 'o': 0, 'v': 0}))
+            for e in evs:
+                t = tmap.get(e['t'])
+                if t is None:
+                    continue
+                L = lambda ev, o=0, v=0: lines.append(json.dumps({'ev': ev, 't': t, 'o': o, 'v': v}))
+                if e['ev'] == 'lk' and e['op'] == 'acq':
+                    if e['lock'] == table:
+                        if t == 'prod' and e['m'] == 'R':
+                            L('snap')
+                        elif t == 'sub' and e['m'] == 'W':
+                            L('reg')
+                        elif t == 'unsub' and e['m'] == 'W':
+                            L('rm')
+                        else:
+                            L('table-%s-by-%s' % (e['m'], t))        # an access of the table the model does not have
+                    elif e['lock'] in rslot:
+                        if t == 'prod' and e['m'] == 'R':
+                            L('try', rslot[e['lock']])
+                        elif t == 'unsub' and e['m'] == 'W' and rslot[e['lock']] == 1:
+                            L('clear')
+                        elif t == 'prod':
+                            L('slot-%s-by-prod' % e['m'])
+                elif e['ev'] == 'emitcall' and t == 'prod':
+                    L('call', 0, e['v'] - 10)
+                elif e['ev'] == 'emitret' and t == 'prod':
+                    L('ret')
+                elif e['ev'] == 'cbstart' and t == 'prod':
+                    L('cb', e['u'], e['v'] - 10)
+                elif e['ev'] in ('subcall', 'subret') and t == 'sub':
+                    L(e['ev'])
+                elif e['ev'] in ('unsubcall', 'unsubret') and t == 'unsub':
+                    L(e['ev'])
+            out['traces'] += 1
+        if bad:
+            out['drift'].append({'case': name, 'detail': bad})
+            continue
+        if not lines:
+            continue
+        if corrupt:
+            lines = corrupt(lines)
+            if lines is None:
+                continue
+        # a `try` line says whether the callback ran (the next line of the producer is the matching cb)
+        ev_ = [json.loads(x) for x in lines]
+        for i_, e_ in enumerate(ev_):
+            if e_['ev'] == 'try':
+                nxt = next((x for x in ev_[i_ + 1:] if x['t'] == 'prod' or x['ev'] == 'reset'), None)
+                e_['v'] = 1 if nxt and nxt['ev'] == 'cb' and nxt['o'] == e_['o'] else 0
+        lines = [json.dumps(x) for x in ev_]
+        out['cases'] += 1
+        out['lines'] += len(lines)
+        tag = tagp + '_' + re.sub(r'[^a-z0-9]', '_', name)
+        tpath = '%s/%s.ndjson' % (work, tag)
+        with open(tpath, 'w') as f:
+            f.write('\n'.join(lines) + '\n')
+        cfg = '%s/%s.cfg' % (gen, tag)
+        nvals = len([s_ for s_ in c['threads'][0] if s_['op'] == 'emit'])
+        with_unsub = len(c['threads']) > 2
+        with open(cfg, 'w') as f:
+            f.write('SPECIFICATION TSpec\nCONSTANTS Kind = "plain"\n NValues = %d\n WithUnsub = %s\nCONSTRAINT Progress\nINVARIANT ModelInvariants\nPOSTCONDITION Accepted\nCHECK_DEADLOCK FALSE\n' % (nvals, 'TRUE' if with_unsub else 'FALSE'))
+        env = dict(os.environ)
+        env['TRACE'] = tpath
+        env['JAVA_TOOL_OPTIONS'] = '-Xss1g -Xmx3g'
+        rr = subprocess.run(['timeout', '600'] + tlc_cmd(1, '%s/md-%s' % (work, tag), cfg, 'SubjectConcTrace.tla'), cwd=gen, capture_output=True, text=True, env=env)
+        if 'Model checking completed. No error has been found.' not in rr.stdout:
+            m = re.search(r'DRIFT: [^\n]*\n?[^\n]*\n?[^\n]*', rr.stdout)
+            out['drift'].append({'case': name, 'detail': (m.group(0) if m else rr.stdout[-900:])[:900]})
+    return out
+
+
 def load_known():
     p = V + '/known_findings.json'
     if not os.path.exists(p):
@@ -793,6 +927,11 @@ def run_conc_check(prop, tier, flags, seed, design_ref, models=(), extra_cases=N
             qd = sink_drift(work, harness, seed, runs=40 if tier == 'quick' else 400)
             if qd['drift']:
                 out_lines.append('MODEL-DRIFT property=C19 the lock-level log of the subscriber Observer / StreamController is no longer a behaviour of the L1 design model SinkConc (%d of %d cases; first: %s)'
+                                 % (len(qd['drift']), qd['cases'], qd['drift'][0]['detail'][:300].replace('\n', ' ')))
+        if prop == 'C12':
+            qd = subject_drift(work, harness, seed, runs=40 if tier == 'quick' else 400)
+            if qd['drift']:
+                out_lines.append('MODEL-DRIFT property=C12 the lock-level log of the plain Subject is no longer a behaviour of the L1 design model SubjectConc (%d of %d cases; first: %s)'
                                  % (len(qd['drift']), qd['cases'], qd['drift'][0]['detail'][:300].replace('\n', ' ')))
         runs = sum(c['runs'] for c in per_case) + sum(c['runs'] for c in pc2)
         distinct = sum(c['distinct_traces'] for c in per_case)
